@@ -22,5 +22,5 @@ GenPrebuilt ==
                         [v |-> ListV(<<Scalar("int", <<101>>)>>), impl |-> "basic"]}
                   ELSE {})
 
-Emit == Complete => PrintT(ToJson([steps |-> hist, results |-> results, pc |-> pc]))
+Emit == Complete => PrintT(ToJson([steps |-> hist, results |-> results, pc |-> pc, abort |-> AbortsAt(hist)]))
 =============================================================================
